@@ -1,0 +1,87 @@
+//go:build verif
+// +build verif
+
+package skiplist
+
+import (
+	"sync/atomic"
+	"unsafe"
+)
+
+// Verification hook points (build tag verif only).
+const (
+	VpAcqLoaded             = iota + 1 // Acquire: session pointer loaded, before increment
+	VpAcqIncremented                   // Acquire: after increment
+	VpRelBeforeDec                     // Release: before decrement
+	VpRelLatched                       // Release: after closed latch won
+	VpRelEnqueued                      // Release: after freeq insert, before try-lock
+	VpRelCleanupDone                   // Release: after doCleanup, before try-lock release
+	VpRelUnlocked                      // Release: after try-lock release
+	VpCleanupLoop                      // doCleanup: loop head
+	VpCleanupBeforeDestruct            // doCleanup: before destructor (arg = session)
+	VpFlushBeforeLock                  // FlushSession: before Lock
+	VpFlushLocked                      // FlushSession: after Lock
+	VpFlushSwapped                     // FlushSession: after session swap (arg = old session)
+	VpFlushBeforeOffset                // FlushSession: before offset add
+	VpFlushBeforeRelease               // FlushSession: before inner Release
+	VpInsBeforePublish                 // Insert4: before level-0 publish CAS (arg = node)
+	VpInsBeforeLink                    // Insert4: before upper-level link CAS (arg = node)
+	VpInsLinked                        // Insert4: after an upper-level link CAS succeeded (arg = node)
+	VpDelBeforeMark                    // softDelete: before a mark CAS (arg = node)
+	VpDelMarked                        // deleteNode: after softDelete succeeded, before the unlink pass (arg = node)
+	VpHelpBeforeUnlink                 // helpDelete: before unlink CAS (arg = node being unlinked)
+	VpIterNextRead                     // Iterator.Next: after reading (next,deleted) (arg = current node)
+)
+
+type verifHookFn func(id int, arg unsafe.Pointer)
+
+var verifHook atomic.Value
+
+// VerifSetHook installs (or, with nil, removes) the process-wide hook callback.
+func VerifSetHook(fn func(id int, arg unsafe.Pointer)) {
+	verifHook.Store(verifHookFn(fn))
+}
+
+func verifPoint(id int, arg unsafe.Pointer) {
+	if h, _ := verifHook.Load().(verifHookFn); h != nil {
+		h(id, arg)
+	}
+}
+
+// VerifNext returns successor and delete mark of n at the given level.
+func (n *Node) VerifNext(level int) (*Node, bool) {
+	return n.getNext(level)
+}
+
+// VerifLevel returns the current maximum level of the skiplist.
+func (s *Skiplist) VerifLevel() int {
+	return int(atomic.LoadInt32(&s.level))
+}
+
+// VerifSessionInfo exposes barrier session state.
+func (bs *BarrierSession) VerifSessionInfo() (liveCount int32, seqno uint64, closed int32, ref unsafe.Pointer) {
+	return atomic.LoadInt32(bs.liveCount), bs.seqno, atomic.LoadInt32(&bs.closed), bs.objectRef
+}
+
+// VerifCurrentSession returns the barrier's current open session.
+func (ab *AccessBarrier) VerifCurrentSession() *BarrierSession {
+	return (*BarrierSession)(atomic.LoadPointer(&ab.session))
+}
+
+// VerifBarrierState exposes internal counters of the barrier.
+func (ab *AccessBarrier) VerifBarrierState() (activeSeqno, freeSeqno uint64, destructorRunning int32, queued int) {
+	q := 0
+	if ab.freeq != nil {
+		q = ab.freeq.GetStats().NodeCount
+	}
+	return ab.activeSeqno, ab.freeSeqno, atomic.LoadInt32(&ab.isDestructorRunning), q
+}
+
+// VerifRawStats returns a copy of the raw statistics counters.
+func (s *Stats) VerifRawStats() (levelNodes [MaxLevel + 1]int64, softDeletes, nodeAllocs, nodeFrees, usedBytes int64) {
+	for i := range s.levelNodesCount {
+		levelNodes[i] = atomic.LoadInt64(&s.levelNodesCount[i])
+	}
+	return levelNodes, atomic.LoadInt64(&s.softDeletes), atomic.LoadInt64(&s.nodeAllocs),
+		atomic.LoadInt64(&s.nodeFrees), atomic.LoadInt64(&s.usedBytes)
+}
